@@ -10,7 +10,7 @@
 set -e
 cfg=$1
 [ -n "$cfg" ] || { echo "usage: build.sh <cfg>"; exit 2; }
-V=/verif
+V=$(cd "$(dirname "$0")/.." && pwd)
 SRC=${VERIF_SRC:-/repo}
 B=${VERIF_BUILD:-$V/build}/$cfg
 mkdir -p $B/m4ri $B/obj
